@@ -37,8 +37,32 @@ def observe(atoms, tol=TOL, order=None, with_params=True, reuse=None, keep=None)
         an = SymmetryAnalyzer(atoms, symmetry_tol=tol)
     if keep is not None:
         keep.append(an)
+    # every public getter is read ONCE, and what it returned the first time is what the clauses judge: with `order` some
+    # getters are read before the others (before the analyzer has computed anything else), so an answer that depends on
+    # which getters were called earlier shows up in the ordinary clauses
+    first = {}
+    real_an = an
+
+    class _An:
+        def __getattr__(self, name):
+            real = getattr(real_an, name)
+            if not name.startswith("get_"):
+                return real
+
+            def call(*a, **kw):
+                key = (name, a, tuple(sorted(kw.items())))
+                if key not in first:
+                    first[key] = real(*a, **kw)
+                return first[key]
+
+            return call
+
+    an = _An()
     for name in order or []:
-        getattr(an, name)()
+        if name == "get_wyckoff_sets_conventional":
+            an.get_wyckoff_sets_conventional(return_parameters=False)
+        else:
+            getattr(an, name)()
     o = {"reused_analyzer": reuse is not None, "in_det_sign": int(np.sign(np.linalg.det(atoms.get_cell()[:]))), "n_in": len(atoms), "vol_in": int(round(atoms.get_volume() * 1000)), "tol6": int(round(tol * 1e6))}
     o["number"] = int(an.get_space_group_number())
     o["hall"] = int(an.get_hall_number())
